@@ -205,7 +205,13 @@ def driver_records(tier):
             for prof in ("c4", "var", "c3"):
                 for nc in (2, 4, 6):
                     S = D.Session(cn, ncell=nc, profile=prof, dtlocal_spread=True, rhs_mode="one")
-                    raw, _ = S.call("solve", S.f0, 0.5, [], {"maxit": 4}, directives={"dtlocal": True} if dtlocal else None)
+                    # larger meshes: snapshots asked for strictly inside steps, and the directive that only prints -- neither
+                    # changes the step the cells advance by
+                    dirs = dict({"dtlocal": True} if dtlocal else {}, **({"verbose": True} if nc == 6 else {}))
+                    ts = [] if nc == 2 else [1.0 / D.UNIT, 5.0 / D.UNIT]
+                    import contextlib, io
+                    with contextlib.redirect_stdout(io.StringIO()):
+                        raw, _ = S.call("solve", S.f0, 0.5, ts, {"maxit": 4}, directives=dirs or None)
                     raw["rhs_mode"] = "one"
                     rid += 1
                     recs.append({"id": rid, "kind": "call", "call": D.project([raw], rid)[0], "cls": cn, "dtlocal": dtlocal})
